@@ -13,6 +13,29 @@ pub struct Case {
     pub a2: String,
     pub b: String,
     pub spec: OptSpec,
+    /// pass the options by reference (`&Options`) instead of by value: the
+    /// API accepts anything `Into<Options>` and the two conversions are
+    /// separate code
+    #[serde(default)]
+    pub by_ref: bool,
+}
+
+fn wrap_s(text: &str, spec: &OptSpec, by_ref: bool) -> Vec<String> {
+    let o = spec.options();
+    if by_ref {
+        to_strings(&textwrap::wrap(text, &o))
+    } else {
+        to_strings(&textwrap::wrap(text, o))
+    }
+}
+
+fn fill_s(text: &str, spec: &OptSpec, by_ref: bool) -> String {
+    let o = spec.options();
+    if by_ref {
+        textwrap::fill(text, &o)
+    } else {
+        textwrap::fill(text, o)
+    }
 }
 
 pub struct P;
@@ -25,11 +48,12 @@ pub fn check(c: &Case) -> Outcome {
     let e = spec.ending();
     let ab = format!("{}{}{}", c.a, e, c.b);
     let a2b = format!("{}{}{}", c.a2, e, c.b);
-    let w_a = to_strings(&textwrap::wrap(&c.a, spec.options()));
-    let w_a2 = to_strings(&textwrap::wrap(&c.a2, spec.options()));
-    let w_b = to_strings(&textwrap::wrap(&c.b, spec.options()));
-    let w_ab = to_strings(&textwrap::wrap(&ab, spec.options()));
-    let w_a2b = to_strings(&textwrap::wrap(&a2b, spec.options()));
+    let r = c.by_ref;
+    let w_a = wrap_s(&c.a, spec, r);
+    let w_a2 = wrap_s(&c.a2, spec, r);
+    let w_b = wrap_s(&c.b, spec, r);
+    let w_ab = wrap_s(&ab, spec, r);
+    let w_a2b = wrap_s(&a2b, spec, r);
     // (1) prefix
     ensure!(
         w_ab.len() >= w_a.len() && w_ab[..w_a.len()] == w_a[..],
@@ -83,7 +107,7 @@ pub fn check(c: &Case) -> Outcome {
         paragraphs
     );
     // (5) fill == join
-    let f = textwrap::fill(&ab, spec.options());
+    let f = fill_s(&ab, spec, r);
     ensure!(
         f == w_ab.join(e),
         "fill({}, {:?}) = {} is not wrap's lines joined by the line ending ({})",
@@ -100,7 +124,7 @@ pub fn check(c: &Case) -> Outcome {
             let mut s2 = spec.clone();
             s2.crlf = true;
             let t2 = t.replace('\n', "\r\n");
-            let w2 = to_strings(&textwrap::wrap(&t2, s2.options()));
+            let w2 = wrap_s(&t2, &s2, r);
             ensure!(
                 w2 == w_ab,
                 "switching input and option from LF to CRLF changed the lines: text {}, {:?}: LF {} vs CRLF {}",
@@ -109,7 +133,7 @@ pub fn check(c: &Case) -> Outcome {
                 show_lines(&w_ab),
                 show_lines(&w2)
             );
-            let f2 = textwrap::fill(&t2, s2.options());
+            let f2 = fill_s(&t2, &s2, r);
             ensure!(
                 f2 == w_ab.join("\r\n"),
                 "fill with CRLF differs from the LF result by more than the substitution: text {}, {:?}: {} vs {}",
@@ -133,6 +157,9 @@ pub fn check(c: &Case) -> Outcome {
     if ab.contains('\r') {
         classes.push("cr");
     }
+    if r {
+        classes.push("options_by_reference");
+    }
     let wrapped = w_a.len() > c.a.split(e).count() || w_b.len() > c.b.split(e).count();
     if wrapped {
         classes.push("wrapped");
@@ -152,8 +179,14 @@ impl Property for P {
         };
         let mix = Mix::FULL.with_endings(4);
         let part = || prop_oneof![9 => gen::token_text(mix, n), 1 => gen::wild_string(8)];
-        (part(), part(), part(), gen::optspec(og))
-            .prop_map(|(a, a2, b, spec)| Case { a, a2, b, spec })
+        (part(), part(), part(), gen::optspec(og), any::<bool>())
+            .prop_map(|(a, a2, b, spec, by_ref)| Case {
+                a,
+                a2,
+                b,
+                spec,
+                by_ref,
+            })
             .boxed()
     }
     fn check(c: &Case, _m: Mode) -> Outcome {
@@ -166,7 +199,7 @@ impl Property for P {
         }
     }
     fn rule() -> String {
-        "cases = (texts a, a', b — each possibly empty or containing endings/CRs — and full options); oracle = wrap(a+E+b) starts with wrap(a); the remaining lines equal those of wrap(a'+E+b); with empty indents they equal wrap(b); #lines >= #paragraphs; fill == lines.join(E); for LF options and texts without CRLF, replacing LF by CRLF in text and option leaves the lines unchanged and changes fill only by the substitution. non-trivial = b non-empty and a or b was actually wrapped; distinct = distinct serialized cases".into()
+        "cases = (texts a, a', b — each possibly empty or containing endings/CRs — and full options, passed by value or by reference); oracle = wrap(a+E+b) starts with wrap(a); the remaining lines equal those of wrap(a'+E+b); with empty indents they equal wrap(b); #lines >= #paragraphs; fill == lines.join(E); for LF options and texts without CRLF, replacing LF by CRLF in text and option leaves the lines unchanged and changes fill only by the substitution. non-trivial = b non-empty and a or b was actually wrapped; distinct = distinct serialized cases".into()
     }
     fn health() -> Vec<(&'static str, f64)> {
         vec![
@@ -175,6 +208,7 @@ impl Property for P {
             ("indents", 0.3),
             ("wrapped", 0.3),
             ("cr", 0.05),
+            ("options_by_reference", 0.3),
         ]
     }
     fn min_nontrivial_share() -> f64 {
@@ -191,5 +225,5 @@ pub fn decode(data: &[u8]) -> Case {
     let a = crate::fuzzdec::text(mode, r.take(la));
     let a2 = crate::fuzzdec::text(mode, r.take(la2));
     let b = crate::fuzzdec::text(mode, r.rest());
-    Case { a, a2, b, spec }
+    Case { a, a2, b, spec, by_ref: mode & 4 == 4 }
 }
